@@ -4,6 +4,7 @@
 mod fsys;
 mod model;
 mod ops;
+mod uring;
 
 use std::time::Duration;
 
@@ -145,7 +146,7 @@ fn configs(prop: &str, tier: Tier) -> Vec<FsCfg> {
         ],
         "C07" => {
             let mut v = vec![
-                FsCfg { name: "durable".into(), prop: Prop::C07, letters: c07_letters(tier), depth: tier.pick(5, 6), sync_prob: 0.0, block: None },
+                FsCfg { name: "durable".into(), prop: Prop::C07, letters: c07_letters(tier), depth: tier.pick(6, 7), sync_prob: 0.0, block: None },
                 FsCfg {
                     name: "durable-torn-b1".into(),
                     prop: Prop::C07,
@@ -159,7 +160,7 @@ fn configs(prop: &str, tier: Tier) -> Vec<FsCfg> {
                         Op::RemoveFile(0),
                         Op::Crash,
                     ],
-                    depth: tier.pick(6, 7),
+                    depth: tier.pick(7, 8),
                     sync_prob: 0.0,
                     block: Some(1),
                 },
@@ -181,6 +182,23 @@ fn configs(prop: &str, tier: Tier) -> Vec<FsCfg> {
                     block: None,
                 },
             ];
+            // the write-temp / fsync / rename / fsync-dir publish idiom in one directory
+            v.push(FsCfg {
+                name: "durable-publish".into(),
+                prop: Prop::C07,
+                letters: vec![
+                    Op::Create(0),
+                    Op::WriteAt(0, 0, 0, Front::Std),
+                    Op::SyncAll(0, Front::Std),
+                    Op::SyncDir(3),
+                    Op::RenameF(0, 4),
+                    Op::RemoveFile(4),
+                    Op::Crash,
+                ],
+                depth: tier.pick(8, 9),
+                sync_prob: 0.0,
+                block: None,
+            });
             if tier == Tier::Thorough {
                 v.push(FsCfg {
                     name: "durable-torn-b2".into(),
@@ -203,6 +221,54 @@ fn configs(prop: &str, tier: Tier) -> Vec<FsCfg> {
         }
         _ => vec![],
     }
+}
+
+fn c18_configs(tier: Tier) -> Vec<uring::UCfg> {
+    use uring::*;
+    let mut v = vec![
+        UCfg {
+            name: "one-ring-d2".into(),
+            rings: 1,
+            depth_ring: 2,
+            latency_us: 1000,
+            depth: tier.pick(7, 9),
+            page_cache: false,
+            letters: vec![
+                A_READ0, A_READ2, A_WRITE0, A_WRITE3, A_FSYNC, A_CANCEL_LAST, A_CANCEL_UNKNOWN, A_BADFLAG, A_READ_DUP, A_SUBMIT0,
+                A_ADV_HALF, A_ADV_FULL, A_DRAIN0, A_DRAIN_ONE0, A_CLOSE, A_CRASH,
+            ],
+        },
+        UCfg {
+            name: "two-rings-crash".into(),
+            rings: 2,
+            depth_ring: 1,
+            latency_us: 1000,
+            depth: tier.pick(7, 9),
+            page_cache: false,
+            letters: vec![A_WRITE0, A_READ0, A_R1_WRITE1, A_R1_READ0, A_SUBMIT0, A_SUBMIT1, A_ADV_FULL, A_DRAIN0, A_DRAIN1, A_CRASH],
+        },
+        UCfg {
+            name: "latency-with-page-cache".into(),
+            rings: 1,
+            depth_ring: 4,
+            latency_us: 1000,
+            depth: tier.pick(6, 8),
+            page_cache: true,
+            letters: vec![A_READ0, A_WRITE0, A_WRITE3, A_FSYNC, A_CANCEL_LAST, A_CANCEL_DONE, A_SUBMIT0, A_ADV_FULL, A_DRAIN0, A_DRAIN_ONE0, A_CLOSE],
+        },
+    ];
+    if tier == Tier::Thorough {
+        v.push(UCfg {
+            name: "one-ring-d4".into(),
+            rings: 1,
+            depth_ring: 4,
+            latency_us: 1000,
+            depth: 8,
+            page_cache: false,
+            letters: vec![A_READ0, A_WRITE0, A_WRITE3, A_FSYNC, A_CANCEL_LAST, A_READ_DUP, A_SUBMIT0, A_ADV_FULL, A_DRAIN0, A_DRAIN_ONE0],
+        });
+    }
+    v
 }
 
 fn main() {
@@ -234,6 +300,25 @@ fn main() {
             run_fs(&mut rep, configs("C07", tier), wall, cap);
             rep.finish();
         }
+        "C18" => {
+            let mut rep = Report::new("C18", tier, "model_checking", "fsx");
+            rep.rule = "explicit-state BFS over histories of push / submit / advance / drain / cancel / close / crash on one or two simulated rings and one file (Fs and IoUringHostState entered directly, harness-owned time, scripted Fs::rng for the completion shuffle); every CQE is matched against an order-agnostic reference (eligible now, result equal to the synchronous API on the reference file, buffers untouched on error), and a fair suffix checks exactly-once completion and silence after a crash".into();
+            for c in c18_configs(tier) {
+                let mut b = BfsConfig::new(&c.name);
+                b.scenario = c.describe();
+                b.bounds = c.describe();
+                b.wall = wall;
+                b.max_states = cap;
+                b.max_depth = c.depth + 1;
+                let st = explore_bfs::<uring::USys>(&b, &c);
+                for s in st.samples.iter().take(1) {
+                    rep.sample(json!({"config": c.name, "history": s}));
+                }
+                rep.violations.extend(st.violations);
+                rep.add_part(st.part);
+            }
+            rep.finish();
+        }
         other => vx_core::machinery_error(&format!("vx-fsx does not serve {other}")),
     }
 }
@@ -241,6 +326,39 @@ fn main() {
 fn replay(path: &str) {
     let (prop, scenario, choices) = vx_core::report::load_replay(path);
     let name = scenario.split_whitespace().next().unwrap_or("").to_string();
+    if prop == "C18" {
+        let mut cs = c18_configs(Tier::Thorough);
+        cs.extend(c18_configs(Tier::Quick));
+        let depth: Option<usize> = scenario.split_whitespace().find_map(|t| t.strip_prefix("history_depth=").and_then(|x| x.parse().ok()));
+        let Some(cfg) = cs.into_iter().find(|c| c.name == name && Some(c.depth) == depth) else {
+            vx_core::machinery_error(&format!("replay: unknown scenario {name} for {prop}"));
+        };
+        println!("replaying {prop} {}", cfg.describe());
+        let mut s = uring::USys::init(&cfg);
+        for (i, &a) in choices.iter().enumerate() {
+            println!("--- step {i}: {}", s.describe(a as u16));
+            match vx_core::catch(|| s.apply(a as u16)) {
+                Ok(Ok(())) => println!("{}", s.trace_state()),
+                Ok(Err(v)) => {
+                    println!("VIOLATION clause={} : {}", v.clause, v.detail);
+                    std::process::exit(1);
+                }
+                Err(p) => {
+                    println!("PANIC {p}");
+                    std::process::exit(1);
+                }
+            }
+        }
+        println!("--- fair suffix");
+        match s.finish().1 {
+            Some(v) => {
+                println!("VIOLATION clause={} : {}", v.clause, v.detail);
+                std::process::exit(1);
+            }
+            None => println!("no violation on this history"),
+        }
+        return;
+    }
     let mut cs = configs(&prop, Tier::Thorough);
     cs.extend(configs(&prop, Tier::Quick));
     // thorough and quick letter tables differ: pick by letter count recorded in the scenario
